@@ -26,6 +26,18 @@ type message struct {
 	flags map[imap.Flag]struct{}
 }
 
+// messageSnapshot holds what is needed to copy a message once its mailbox is
+// no longer locked.
+type messageSnapshot struct {
+	msg   *message
+	flags []imap.Flag
+}
+
+// snapshot must be called with the mailbox locked.
+func (msg *message) snapshot() messageSnapshot {
+	return messageSnapshot{msg: msg, flags: msg.flagList()}
+}
+
 func (msg *message) fetch(w *imapserver.FetchResponseWriter, options *imap.FetchOptions) error {
 	w.WriteUID(msg.uid)
 
